@@ -1,0 +1,369 @@
+//go:build verif
+
+// Contracts for the fvc verification-condition generator in /verif (comment-only file; it adds no
+// code to the package and is only seen with -tags verif).
+
+package cache
+
+//@ props C14
+
+// ---- indexedHeap (heap.go) ------------------------------------------------------------------------
+// entries[0:len) are the live heap entries; entries[len:maxidx) (inside the capacity) are parked
+// entries whose idx is free for re-use. Every slot k of entries[0:maxidx) carries an idx in [0,maxidx)
+// and indices[idx] == k (so no two slots carry the same idx). idx j is in use (live) when indices[j] < len
+// and the slot there carries j (holds(h, j)); the second half is a fact about ONE idx that clients keep
+// for the idxs they were handed (a global "for all j" form makes the SMT instantiation loop).
+//@ macro slotOK(hh, kk) = 0 <= hh.entries[kk].idx && hh.entries[kk].idx < hh.maxidx && hh.indices[hh.entries[kk].idx] == kk
+//@ macro wfHeap(hh) = len(hh.indices) == hh.maxidx && len(hh.entries) <= hh.maxidx && hh.maxidx <= cap(hh.entries) && forall(q, 0, hh.maxidx, slotOK(hh, q)) && (len(hh.entries) < hh.maxidx ==> slotOK(hh, len(hh.entries)))
+// (the last conjunct of wfHeap is an instance of the first quantifier, spelled out for the first parked slot: put reads exactly that slot)
+// entryWas(a, b): slot a now holds what slot b held in the pre-state (payload and idx)
+//@ macro entryWas(ea, eb) = ea.key == old(eb.key) && ea.exp == old(eb.exp) && ea.bytes == old(eb.bytes) && ea.idx == old(eb.idx)
+//@ macro live(hh, jj) = 0 <= jj && jj < hh.maxidx && 0 <= hh.indices[jj] && hh.indices[jj] < len(hh.entries)
+//@ macro holds(hh, jj) = live(hh, jj) && hh.entries[hh.indices[jj]].idx == jj
+// keptIdx: idx jj, if it was in use, still is and its slot carries the same entry (wherever the slot moved)
+//@ macro keptIdx(hh, jj) = old(live(hh, jj)) ==> live(hh, jj) && entryWas(hh.entries[hh.indices[jj]], old(hh.entries[hh.indices[jj]]))
+// isIdx(j) is true for every j; it only serves as the instantiation trigger of the "other entries are
+// kept" clauses below (written over j + 0 so that indices[j] itself is not a trigger: with it, those
+// clauses and wfHeap instantiate each other without end in the big handler queries).
+//@ fn isIdx(j int) bool
+//@ smt (assert (forall ((j Int)) (! (isIdx j) :pattern ((isIdx j)))))
+
+//@ func (indexedHeap).Len
+//@   pure
+//@   ensures result == len(h.entries)
+
+//@ func (indexedHeap).Less
+//@   pure
+//@   requires 0 <= i && i < len(h.entries) && 0 <= j && j < len(h.entries)
+//@   ensures earlier-expiry-first: result <==> h.entries[i].exp < h.entries[j].exp
+
+//@ func (indexedHeap).Swap
+//@   requires heap-wf: wfHeap(h)
+//@   requires 0 <= i && i < len(h.entries) && 0 <= j && j < len(h.entries)
+//@   modifies elems(h.entries), elems(h.indices)
+//@   ensures index-follows-entry: wfHeap(h)
+//@   ensures swapped: entryWas(h.entries[i], h.entries[j]) && entryWas(h.entries[j], h.entries[i])
+//@   ensures others-untouched: forall(k, 0, h.maxidx, k != i && k != j ==> entryWas(h.entries[k], h.entries[k]))
+
+// Pop drops the last live entry; the slot keeps its content (it becomes a parked slot).
+//@ func (*indexedHeap).Pop
+//@   requires non-empty: len(h.entries) > 0
+//@   modifies h.entries
+//@   ensures shrinks-by-one: h.entries == old(h.entries)[:old(len(h.entries)) - 1]
+//@   ensures returns-last: typeis(result, heapEntry) && unbox(result, heapEntry).key == old(h.entries[len(h.entries)-1].key) && unbox(result, heapEntry).exp == old(h.entries[len(h.entries)-1].exp) && unbox(result, heapEntry).bytes == old(h.entries[len(h.entries)-1].bytes) && unbox(result, heapEntry).idx == old(h.entries[len(h.entries)-1].idx)
+
+// Push (heap.Interface; container/heap.Push is never called on an indexedHeap, put appends by hand).
+//@ func (*indexedHeap).Push
+//@   requires is-entry: typeis(x, heapEntry)
+//@   requires shape: pushShape(h, unbox(x, heapEntry))
+//@   requires other-slots-in-order: pushSlots(h, unbox(x, heapEntry))
+//@   modifies h.entries, elems(h.entries), elems(h.indices)
+//@   ensures heap-wf: wfHeap(h)
+//@   ensures grows-by-one: len(h.entries) == old(len(h.entries)) + 1
+
+// pushInternal appends entry at position len. It is called by put in an intermediate state: every slot
+// but the target slot is in order and no other slot carries entry.idx.
+//@ macro pushShape(hh, ee) = len(hh.indices) == hh.maxidx && len(hh.entries) < hh.maxidx && 0 <= ee.idx && ee.idx < hh.maxidx && (hh.maxidx <= cap(hh.entries) || len(hh.entries) == hh.maxidx - 1)
+//@ macro pushSlots(hh, ee) = forall(q, 0, hh.maxidx, q != len(hh.entries) ==> slotOK(hh, q) && hh.entries[q].idx != ee.idx)
+//@ func (*indexedHeap).pushInternal
+//@   requires shape: pushShape(h, entry)
+//@   requires other-slots-in-order: pushSlots(h, entry)
+//@   modifies h.entries, elems(h.entries), elems(h.indices)
+//@   ensures heap-wf: wfHeap(h)
+//@   ensures grows-by-one: len(h.entries) == old(len(h.entries)) + 1
+//@   ensures new-entry-last: h.entries[len(h.entries)-1].key == entry.key && h.entries[len(h.entries)-1].exp == entry.exp && h.entries[len(h.entries)-1].bytes == entry.bytes && h.entries[len(h.entries)-1].idx == entry.idx
+//@   ensures earlier-slots-kept: forall(k, 0, h.maxidx, k != old(len(h.entries)) ==> entryWas(h.entries[k], old(h.entries[k])))
+//@   ensures index-of-new-entry: h.indices[entry.idx] == old(len(h.entries)) && len(h.indices) == old(len(h.indices))
+//@   ensures other-indices-kept: forall(j, 0, h.maxidx, j != entry.idx ==> h.indices[j] == old(h.indices[j]))
+
+// hpSum: ghost running total of the bytes of the live heap entries (SMT has no sum operator; the
+// clauses that maintain it are `trusted`: they are the definition of the sum, not checked against a body).
+//@ ghost hpSum int
+
+// put inserts (key, exp, bytes) under an idx that is not in use and returns that idx.
+//@ func (*indexedHeap).put
+//@   requires heap-wf: wfHeap(h)
+//@   modifies h.maxidx, h.indices, h.entries, elems(h.entries), elems(h.indices), hpSum
+//@   ensures heap-wf: wfHeap(h)
+//@   ensures grows-by-one: len(h.entries) == old(len(h.entries)) + 1
+//@   ensures returns-unused-idx: !old(live(h, result)) && holds(h, result)
+//@   ensures entry-under-idx: h.entries[h.indices[result]].key == key && h.entries[h.indices[result]].exp == exp && h.entries[h.indices[result]].bytes == bytes
+//@   ensures live-entries-kept: forall(j, 0, old(h.maxidx), isIdx(j) ==> keptIdx(h, j + 0))
+//@   ensures max-idx-grows-at-most-one: old(h.maxidx) <= h.maxidx && h.maxidx <= old(h.maxidx) + 1
+//@   trusted ensures hpSum == old(hpSum) + bytes
+
+// removeInternal takes the entry at heap position realIdx out; its idx becomes free.
+// The update of the ghost sum is trusted (it is the definition of the sum).
+//@ func (*indexedHeap).removeInternal
+//@   requires heap-wf: wfHeap(h)
+//@   requires position-in-range: 0 <= realIdx && realIdx < len(h.entries)
+//@   modifies h.entries, elems(h.entries), elems(h.indices), hpSum
+//@   ensures heap-wf: wfHeap(h)
+//@   ensures shrinks-by-one: len(h.entries) == old(len(h.entries)) - 1 && h.maxidx == old(h.maxidx)
+//@   ensures idx-freed: !live(h, old(h.entries[realIdx].idx))
+//@   ensures other-live-entries-kept: forall(j, 0, h.maxidx, isIdx(j) && j != old(h.entries[realIdx].idx) ==> keptIdx(h, j + 0))
+//@   ensures returns-removed-entry: result0 == old(h.entries[realIdx].key) && result1 == old(h.entries[realIdx].bytes)
+//@   trusted ensures hpSum == old(hpSum) - result1 && result1 <= old(hpSum) && (len(h.entries) == 0 ==> hpSum == 0)
+
+// remove(idx): idx must be in use; exactly the entry that was handed out under idx goes.
+//@ func (*indexedHeap).remove
+//@   requires heap-wf: wfHeap(h)
+//@   requires idx-in-use: holds(h, idx)
+//@   modifies h.entries, elems(h.entries), elems(h.indices), hpSum
+//@   ensures heap-wf: wfHeap(h)
+//@   ensures shrinks-by-one: len(h.entries) == old(len(h.entries)) - 1 && h.maxidx == old(h.maxidx)
+//@   ensures removes-that-entry: !live(h, idx) && result0 == old(h.entries[h.indices[idx]].key) && result1 == old(h.entries[h.indices[idx]].bytes)
+//@   ensures other-live-entries-kept: forall(j, 0, h.maxidx, isIdx(j) && j != idx ==> keptIdx(h, j + 0))
+//@   ensures sum-follows: hpSum == old(hpSum) - result1 && result1 <= old(hpSum) && (len(h.entries) == 0 ==> hpSum == 0)
+
+// removeFirst: the root goes (the entry with the nearest expiry, by the heap order kept by Fix/Remove).
+//@ func (*indexedHeap).removeFirst
+//@   requires heap-wf: wfHeap(h)
+//@   requires non-empty: len(h.entries) > 0
+//@   modifies h.entries, elems(h.entries), elems(h.indices), hpSum
+//@   ensures heap-wf: wfHeap(h)
+//@   ensures shrinks-by-one: len(h.entries) == old(len(h.entries)) - 1 && h.maxidx == old(h.maxidx)
+//@   ensures removes-root: !live(h, old(h.entries[0].idx)) && result0 == old(h.entries[0].key) && result1 == old(h.entries[0].bytes)
+//@   ensures other-live-entries-kept: forall(j, 0, h.maxidx, isIdx(j) && j != old(h.entries[0].idx) ==> keptIdx(h, j + 0))
+//@   ensures sum-follows: hpSum == old(hpSum) - result1 && result1 <= old(hpSum) && (len(h.entries) == 0 ==> hpSum == 0)
+
+// ---- the cache as the handler sees it (ghost view of the manager's store) --------------------------
+// ceEnt[k]: the entry cached under key k (= KeyGenerator(c) + "_" + method), 0 = none. An entry is an
+// immutable value; its components are read with the observer functions below:
+//   entExp     expiry second (0 for "no entry")     entStatus   status     entHidx   index in the expiry heap
+//   entCtype/entCenc   content type, content encoding    entBody/entSize   body and its length (memory back
+//   end: the body lives in the item)                     entHdrHas/entHdr  the stored response headers
+//   Byte contents are compared through content ids (cid, see contracts/deps/mw_C14.spec): entCtype(e) is the
+//   cid of the content type etc.; entCencLen is the length of the encoding (the hit path tests it).
+// External back end: bodies are separate raw values under k+"_body": rawEnt[storage key], 0 = none, rawBody (cid).
+// (One map of entry ids instead of one map per component keeps the SMT queries small.)
+//@ ghost ceEnt map[string]int
+//@ fn entExp(e int) int
+//@ fn entStatus(e int) int
+//@ fn entBody(e int) int
+//@ fn entSize(e int) int
+//@ fn entCtype(e int) int
+//@ fn entCenc(e int) int
+//@ fn entCencLen(e int) int
+//@ fn entHidx(e int) int
+//@ fn entHdrHas(e int, h string) bool
+//@ fn entHdr(e int, h string) int
+//@ smt (assert (= (entExp 0) 0))
+//@ ghost rawEnt map[string]int
+//@ fn rawBody(r int) int
+// item `it` carries exactly entry `en` / carried it in the pre-state
+//@ macro itemIs(it, en) = it.exp == entExp(en) && it.status == entStatus(en) && cid(str(it.ctype)) == entCtype(en) && cid(str(it.cencoding)) == entCenc(en) && len(it.cencoding) == entCencLen(en) && it.heapidx == entHidx(en) &&
+//@ ..   forallS(hk, indom(it.headers, hk) <==> entHdrHas(en, hk)) && forallS(hk, entHdrHas(en, hk) ==> cid(str(it.headers[hk])) == entHdr(en, hk))
+//@ macro itemWas(it, en) = old(it.exp) == entExp(en) && old(it.status) == entStatus(en) && old(cid(str(it.ctype))) == entCtype(en) && old(cid(str(it.cencoding))) == entCenc(en) && old(len(it.cencoding)) == entCencLen(en) && old(it.heapidx) == entHidx(en) &&
+//@ ..   old(cid(str(it.body))) == entBody(en) && old(len(it.body)) == entSize(en) &&
+//@ ..   forallS(hk, old(indom(it.headers, hk)) <==> entHdrHas(en, hk)) && forallS(hk, entHdrHas(en, hk) ==> old(cid(str(it.headers[hk]))) == entHdr(en, hk))
+
+// ---- manager (manager.go): glue between the back end and the ghost view ----------------------------
+// The relation to the ghost view is `trusted` (the msgpack round trip and internal/memory are not
+// verified against it); the bodies are checked for safety, for the frame, and for what they hand to
+// the back end (own key, own TTL). An entry may have expired (TTL) when it is read.
+//@ func (*item).UnmarshalMsg(z, bts) assumed
+//@   modifies fields(z)
+//@ func (*item).MarshalMsg(z, b) assumed pure allocates
+
+// sync.Pool is not modelled: the pool only ever holds *item (New returns new(item), Put is only called by release).
+//@ func (*manager).acquire assumed pure
+//@   ensures result != nil
+
+//@ func newManager
+//@   ensures result != nil && result.storage == storage
+
+//@ func (*manager).release
+//@   modifies e.body, e.ctype, e.status, e.exp, e.headers
+//@   ensures external-back-end-keeps-item: old(m.storage) != nil ==> e.body == old(e.body) && e.status == old(e.status) && e.exp == old(e.exp) && e.ctype == old(e.ctype) && e.headers == old(e.headers)
+//@   ensures pooled-item-is-blank: old(m.storage) == nil ==> e.body == nil && e.ctype == nil && e.status == 0 && e.exp == 0 && e.headers == nil
+
+//@ func (*manager).get
+//@   modifies ceEnt, stHas, memHas, item.headers, item.body, item.ctype, item.cencoding, item.status, item.exp, item.heapidx
+//@   atcall @fiber.Storage.Get: own-key: arg1 == key
+//@   atcall @memory.(*Storage).Get: own-key: arg1 == key
+//@   ensures external-back-end-always-returns-item: m.storage != nil ==> result != nil
+//@   trusted ensures only-expiry: ceEnt == old(ceEnt) || ceEnt == old(ceEnt)[key := 0]
+//@   trusted ensures absent: result == nil ==> ceEnt[key] == 0
+//@   trusted ensures blank-item-when-absent: result != nil && ceEnt[key] == 0 ==> result.exp == 0
+//@   trusted ensures item-is-entry: result != nil && ceEnt[key] != 0 ==> itemIs(result, ceEnt[key]) && (m.storage == nil ==> cid(str(result.body)) == entBody(ceEnt[key]) && len(result.body) == entSize(ceEnt[key]))
+
+//@ func (*manager).getRaw
+//@   modifies rawEnt, stHas, memHas
+//@   atcall @fiber.Storage.Get: own-key: arg1 == key
+//@   atcall @memory.(*Storage).Get: own-key: arg1 == key
+//@   trusted ensures only-expiry: rawEnt == old(rawEnt) || rawEnt == old(rawEnt)[key := 0]
+//@   trusted ensures raw-value: (rawEnt[key] != 0 ==> cid(str(result)) == rawBody(rawEnt[key])) && (rawEnt[key] == 0 ==> result == nil)
+
+//@ func (*manager).set
+//@   modifies ceEnt, stHas, stVal, memHas, item.body, item.ctype, item.status, item.exp, item.headers
+//@   atcall @fiber.Storage.Set: own-key-and-ttl: arg1 == key && arg3 == exp
+//@   atcall @memory.(*Storage).Set: own-key-and-ttl: arg1 == key && arg3 == exp
+//@   trusted ensures entry-stored: ceEnt == old(ceEnt)[key := ceEnt[key]] && ceEnt[key] != 0 && itemWas(it, ceEnt[key])
+
+//@ func (*manager).setRaw
+//@   modifies rawEnt, stHas, stVal, memHas
+//@   atcall @fiber.Storage.Set: own-key-and-ttl: arg1 == key && arg3 == exp && arg2 == raw
+//@   atcall @memory.(*Storage).Set: own-key-and-ttl: arg1 == key && arg3 == exp
+//@   trusted ensures raw-stored: rawEnt == old(rawEnt)[key := rawEnt[key]] && rawEnt[key] != 0 && rawBody(rawEnt[key]) == old(cid(str(raw)))
+
+//@ func (*manager).del
+//@   modifies ceEnt, rawEnt, stHas, memHas
+//@   atcall @fiber.Storage.Delete: own-key: arg1 == key
+//@   atcall @memory.(*Storage).Delete: own-key: arg1 == key
+//@   trusted ensures deleted: ceEnt == old(ceEnt)[key := 0] && rawEnt == old(rawEnt)[key := 0]
+
+// deleteKey (New$3): entry and, for an external back end, its body go; nothing else does.
+//@ func New$3
+//@   requires manager-wired: manager != nil
+//@   modifies ceEnt, rawEnt, stHas, memHas
+//@   ensures entry-gone: ceEnt[dkey] == 0
+//@   ensures body-gone: cfg.Storage != nil ==> rawEnt[dkey + "_body"] == 0
+//@   ensures only-removes: forallS(k, ceEnt[k] == old(ceEnt[k]) || ceEnt[k] == 0) && forallS(k, rawEnt[k] == old(rawEnt[k]) || rawEnt[k] == 0)
+// The handler calls New$3 through the variable deleteKey; the engine resolves such a call by the name
+// of the variable, so the clauses proved for New$3 are repeated here (ASSUMED copy).
+//@ func var deleteKey(dkey) assumed
+//@   modifies ceEnt, rawEnt, stHas, memHas
+//@   ensures entry-gone: ceEnt[dkey] == 0
+//@   ensures body-gone: cfg.Storage != nil ==> rawEnt[dkey + "_body"] == 0
+//@   ensures only-removes: forallS(k, ceEnt[k] == old(ceEnt[k]) || ceEnt[k] == 0) && forallS(k, rawEnt[k] == old(rawEnt[k]) || rawEnt[k] == 0)
+
+// ---- request predicates ----------------------------------------------------------------------------
+// ccHas(h, d): the Cache-Control header value h carries directive d. Directives are case-insensitive
+// tokens (RFC 9111 section 5.2): "No-Store" is a no-store request. (Uninterpreted; spelling it out with
+// lower() makes the string axioms of the prelude dominate every query of the handler.)
+//@ fn ccHas(h string, d string) bool
+//@ macro noStore(c) = ccHas(reqHeader(c, "Cache-Control", epoch), "no-store")
+//@ macro noCache(c) = ccHas(reqHeader(c, "Cache-Control", epoch), "no-cache")
+// Definition: a substring match on the lower-cased header value counts as "carries the directive"
+// (over-approximating, e.g. on "x-no-cache-y": errs on the safe side). Stated as an axiom that only fires on
+// the term hasRequestDirective computes, so the other queries never see lower().
+//@ smt (assert (forall ((h Str) (d Str)) (! (= (strContains (lower h) d) (ccHas h d)) :pattern ((strContains (lower h) d)))))
+//@ func hasRequestDirective
+//@   pure
+//@   ensures directive-is-case-insensitive: result <==> ccHas(reqHeader(c, "Cache-Control", epoch), directive)
+
+//@ func Config.Next assumed pure
+//@ func Config.CacheInvalidator assumed pure
+//@ func Config.KeyGenerator assumed pure
+//@ func Config.ExpirationGenerator assumed pure
+
+// The visitor that copies the response headers into the new entry (New$4$1): hop-by-hop headers and
+// the two headers kept in dedicated fields are skipped, everything else is copied.
+//@ func New$4$1
+//@   requires e != nil && e.headers != nil
+//@   modifies heap(MD_string_LJuint8), heap(MV_string_LJuint8)
+//@   ensures skips-ignored: old(indom(ignoreHeaders, str(key))) ==> forallS(h, indom(e.headers, h) == old(indom(e.headers, h)))
+//@   ensures copies-other: !old(indom(ignoreHeaders, str(key))) ==> indom(e.headers, str(key)) && str(e.headers[str(key)]) == str(value)
+
+// ---- the handler (New$4) ---------------------------------------------------------------------------
+// ckey(): the cache key of this request; cur(): the entry the cache holds for it now;
+// served(): the response was produced from the cache.
+//@ macro ckey() = last(Config.KeyGenerator) + "_" + last(@fiber.Ctx.Method)
+//@ macro cur() = ceEnt[ckey()]
+//@ macro served() = called(@fasthttp.(*Response).SetBodyRaw)
+//@ macro invalidated() = called(Config.CacheInvalidator) && last(Config.CacheInvalidator)
+//@ macro cacheUntouched() = !called(@sync.(*RWMutex).Lock) && !called((*manager).get) && !called((*manager).getRaw) && !called((*manager).set) && !called((*manager).setRaw) && !called((*indexedHeap).put) && !called((*indexedHeap).remove) && !called((*indexedHeap).removeFirst)
+// the heap slot that accounts for entry en
+//@ macro hslot(en) = heap.entries[heap.indices[entHidx(en)]]
+// every cached entry owns a live heap slot that carries its key and the size of its body
+//@ macro tracked() = forallS(k, ceEnt[k] != 0 ==> isIdx(entHidx(ceEnt[k])) && holds(heap, entHidx(ceEnt[k])) && hslot(ceEnt[k]).key == k && (cfg.Storage == nil && entSize(ceEnt[k]) < 4294967296 * 4294967296 ==> hslot(ceEnt[k]).bytes == entSize(ceEnt[k])))
+//@ ghost lkNone int
+
+// manager.get must run inside the critical section. That is not stated as a clause `held(mux)` at the call
+// (a failing clause is assumed afterwards, and `held(mux)` false would make every later obligation of the
+// path vacuous) but through what depends on it: hit-entry-is-current, hit-body-is-cached-body,
+// expired-entry-slot-is-own and remove's precondition idx-in-use can only be proved when the lookup happens
+// after mux.Lock(), because Lock forgets everything about the guarded state (other requests may have run).
+//@ func New$4
+//@   requires fresh-activation: nextCalls == 0 && !served() && forallS(h, !outHdrSet[h])
+//@   requires lock-free-on-entry: !held(mux)
+//@   requires wired: manager != nil && manager.storage == cfg.Storage && heap != nil && mux != nil
+//@   requires clock-started: timestamp > 0
+//@   requires limit-is-sane: cfg.MaxBytes < 4611686018427387904
+//
+//   -- accounting and data-structure invariants of the state guarded by mux
+//@   lock mux protects ceEnt, rawEnt, hpSum, C_uint, H_cache_indexedHeap_entries, H_cache_indexedHeap_indices, H_cache_indexedHeap_maxidx, H_cache_heapEntry_key, H_cache_heapEntry_exp, H_cache_heapEntry_bytes, H_cache_heapEntry_idx, E_int inv heap-wf: wfHeap(heap)
+//@   lock mux protects lkNone inv stored-bytes-is-heap-sum: storedBytes == hpSum && hpSum >= 0 && (len(heap.entries) == 0 ==> hpSum == 0)
+//@   lock mux protects lkNone inv stored-bytes-within-limit: cfg.MaxBytes > 0 ==> storedBytes <= cfg.MaxBytes
+//@   lock mux protects lkNone inv every-entry-tracked-by-heap: cfg.MaxBytes > 0 ==> tracked()
+//   (the configuration does not change after New; stated here because &cfg is handed to ExpirationGenerator,
+//    so the engine forgets cfg.* whenever unknown code runs)
+//@   lock mux protects lkNone inv config-is-fixed: cfg.MaxBytes < 4611686018427387904
+//
+//   -- bypass
+//@   ensures no-store-bypasses-cache: noStore(c) ==> nextCalls == 1 && cacheUntouched()
+//   (membership in cfg.Methods is what slices.Contains answers for (cfg.Methods, request method); slices is a generic
+//    package without contract, so the clause is stated over that answer and the arguments are pinned by an atcall)
+//@   atcall @slices.Contains: asks-for-request-method: s == cfg.Methods && v == reqMethod(c, epoch)
+//@   ensures unconfigured-method-bypasses-cache: called(@slices.Contains) && !last(@slices.Contains) ==> nextCalls == 1 && cacheUntouched()
+//@   ensures method-is-checked: !noStore(c) ==> called(@slices.Contains)
+//@   ensures origin-runs-unless-served: nextCalls == ite(served(), 0, 1)
+//
+//   -- hit: only a current, fresh entry, not invalidated, not for no-cache/no-store, under the lock
+//@   atcall @fasthttp.(*Response).SetBodyRaw: hit-under-lock: held(mux)
+//@   atcall @fasthttp.(*Response).SetBodyRaw: hit-entry-is-current: cur() != 0 && itemIs(e, cur())
+//@   atcall @fasthttp.(*Response).SetBodyRaw: hit-only-fresh-entry: e.exp != 0 && ts < e.exp
+//@   atcall @fasthttp.(*Response).SetBodyRaw: hit-not-after-invalidation: !invalidated()
+//@   atcall @fasthttp.(*Response).SetBodyRaw: hit-not-for-no-cache: !noCache(c) && !noStore(c)
+//@   atcall @fasthttp.(*Response).SetBodyRaw: hit-body-is-cached-body: cfg.Storage == nil ==> cid(str(body)) == entBody(cur())
+//@   atcall @fasthttp.(*Response).SetBodyRaw: hit-external-body-exists: cfg.Storage != nil ==> rawEnt[ckey() + "_body"] != 0
+//@   atcall @fasthttp.(*Response).SetBodyRaw: hit-external-body-is-stored-body: cfg.Storage != nil ==> cid(str(body)) == rawBody(rawEnt[ckey() + "_body"])
+//   -- hit: the response carries exactly the entry
+//@   ensures hit-status-and-type: served() ==> outStatusSet && outStatus == entStatus(cur()) && outCtypeSet && outCtype == entCtype(cur())
+//@   ensures hit-encoding: served() && entCencLen(cur()) > 0 && !entHdrHas(cur(), "Content-Encoding") ==> outHdrSet["Content-Encoding"] && outHdr["Content-Encoding"] == entCenc(cur())
+//@   ensures hit-stored-headers: served() ==> forallS(h, entHdrHas(cur(), h) ==> outHdrSet[h] && outHdr[h] == entHdr(cur(), h))
+//@   atcall @strconv.FormatUint: max-age-is-time-to-expiry: i == entExp(cur()) - ts && entExp(cur()) > ts
+//@   atcall @fiber.Ctx.Set: hit-marked-only-when-served: val == "hit" ==> served()
+//@   loop 1
+//@     invariant still-locked: held(mux) && served() && !called(@fiber.Ctx.Next)
+//@     invariant entry-in-hand: cur() != 0 && itemIs(e, cur())
+//@     invariant visited-headers-written: forallS(h, seen(h) ==> outHdrSet[h] && outHdr[h] == entHdr(cur(), h))
+//@     invariant encoding-kept: entCencLen(cur()) > 0 && !entHdrHas(cur(), "Content-Encoding") ==> outHdrSet["Content-Encoding"] && outHdr["Content-Encoding"] == entCenc(cur())
+//
+//   -- expired or invalidated entry: it leaves the cache and exactly its heap slot is released
+//   (deleteKey has already run here, so the entry is identified through the heap: the idx handed to remove must be
+//    in use -- that is remove's precondition idx-in-use -- and its slot must be the one that accounts for this key)
+//@   atcall (*indexedHeap).remove: expired-entry-slot-is-own: heap.entries[heap.indices[idx]].key == ckey()
+//@   atcall (*indexedHeap).remove: heap-under-lock: held(mux)
+//
+//   -- store: only cacheable, only what the origin produced, with the configured life time
+//@   atcall (*manager).set: store-under-lock-own-key: held(mux) && key == ckey()
+//@   atcall (*manager).set: store-only-cacheable-status: cacheableStatusCodes[it.status]
+//@   atcall (*manager).set: store-not-when-skipped: !(called(Config.Next) && last(Config.Next))
+//@   atcall (*manager).set: store-origin-status: it.status == last(@fasthttp.(*Response).StatusCode)
+//@   atcall (*manager).set: store-origin-type-and-encoding: cid(str(it.ctype)) == cid(str(last(@fasthttp.(*ResponseHeader).ContentType))) && cid(str(it.cencoding)) == cid(str(last(@fasthttp.(*ResponseHeader).Peek)))
+//@   atcall (*manager).set: store-origin-body: cfg.Storage == nil ==> cid(str(it.body)) == cid(str(last(@fasthttp.(*Response).Body)))
+//   (the engine does not bound slice lengths by MaxInt, hence the guard; stated where the copy was just made,
+//    the two clauses after it follow from it)
+//@   atcall @fasthttp.(*ResponseHeader).ContentType: copied-body-has-accounted-size: len(e.body) < 4294967296 * 4294967296 ==> len(e.body) == bodySize
+//   (the entry must not share memory with the response, whose buffers fasthttp re-uses for the next request)
+//@   atcall (*manager).set: store-copies-response-bytes: (len(it.body) > 0 ==> arr(it.body) != arr(last(@fasthttp.(*Response).Body))) && (len(it.ctype) > 0 ==> arr(it.ctype) != arr(last(@fasthttp.(*ResponseHeader).ContentType))) && (len(it.cencoding) > 0 ==> arr(it.cencoding) != arr(last(@fasthttp.(*ResponseHeader).Peek)))
+//@   atcall (*manager).set: store-size-is-accounted-size: cfg.Storage == nil && len(it.body) < 4294967296 * 4294967296 ==> len(it.body) == bodySize
+//@   atcall (*manager).set: store-expiry: it.exp == ts + uint64(durSeconds(exp)) || it.exp == ts + uint64(durSeconds(exp)) - 4294967296 * 4294967296
+//@   atcall (*manager).set: store-ttl: exp == ite(cfg.ExpirationGenerator != nil, last(Config.ExpirationGenerator), cfg.Expiration)
+//@   atcall (*manager).set: store-fits: cfg.MaxBytes > 0 ==> bodySize <= cfg.MaxBytes && holds(heap, it.heapidx) && heap.entries[heap.indices[it.heapidx]].key == key && heap.entries[heap.indices[it.heapidx]].bytes == bodySize
+//@   atcall (*manager).setRaw: raw-under-lock-own-key: held(mux) && key == ckey() + "_body"
+//@   atcall (*manager).setRaw: raw-is-origin-body: cid(str(raw)) == cid(str(last(@fasthttp.(*Response).Body)))
+//@   atcall (*manager).setRaw: raw-copies-response-bytes: len(raw) > 0 ==> arr(raw) != arr(last(@fasthttp.(*Response).Body))
+//@   atcall (*manager).setRaw: raw-size-is-accounted-size: len(raw) < 4294967296 * 4294967296 ==> len(raw) == bodySize
+//
+//   -- every access to the cache happens in the critical section; the origin runs outside it
+//@   atcall (*manager).get: lookup-own-key: key == ckey()
+//@   atcall (*manager).getRaw: lookup-under-lock-own-key: held(mux) && key == ckey() + "_body"
+//@   atcall var deleteKey: delete-under-lock: held(mux)
+//@   atcall (*indexedHeap).put: heap-under-lock: held(mux)
+//@   atcall (*indexedHeap).removeFirst: heap-under-lock: held(mux)
+//@   atcall @fiber.Ctx.Next: origin-outside-lock: !held(mux)
+//@   loop 2
+//@     invariant evicting-under-lock: held(mux) && cfg.MaxBytes > 0 && bodySize <= cfg.MaxBytes && called(@fiber.Ctx.Next) && !served()
+//@     invariant heap-wf: wfHeap(heap)
+//@     invariant stored-bytes-is-heap-sum: storedBytes == hpSum && hpSum >= 0 && (len(heap.entries) == 0 ==> hpSum == 0) && storedBytes <= cfg.MaxBytes
+//@     invariant every-entry-tracked-by-heap: tracked()
+//@     decreases len(heap.entries)
+
+// ---- New: cache switched off -----------------------------------------------------------------------
+// A negative Expiration switches the cache off: the handler only runs the origin (New$1).
+//@ func New$1
+//@   requires fresh-activation: nextCalls == 0
+//@   ensures cache-off-runs-origin-once: nextCalls == 1 && cacheUntouched() && !served()
